@@ -1,3 +1,213 @@
-/- C05 — property theorems only (helper lemmas live in `Rooc/Proofs`). -/
+/-
+C05 — Solver verdicts and optimal values are correct.  PROPERTY THEOREMS ONLY.
+
+The external solvers are parameters; what is proved here is that every verdict the exact oracle hands to a
+comparison is justified: the three certificate checkers of `Rooc/Cert.lean` are SOUND over every linearly ordered
+field `K` (so in particular over ℝ and over the `Rat` the oracle runs at).  `LpFeasible`, `RowSat`, `BndsSat` are
+the semantics of DESIGN.md appendix A (`Rooc/Proofs/Cert.lean`).
+-/
+import Rooc.Proofs.Cert
+import Mathlib.Data.Rat.Floor
 namespace Rooc.Props.C05
+open Rooc Rooc.Cert
+
+variable {K : Type} [Field K] [LinearOrder K] [IsStrictOrderedRing K] [FloorRing K]
+
+/-- Weak duality, the common core: if `dualBound` accepts the multipliers `y` (sign conditions, finite bounds where
+needed) then its value is below the objective of EVERY feasible point. -/
+theorem weak_duality (lp : LP K) (y x : List K) (v : K)
+    (h : dualBound lp.obj lp.rows lp.bnds y = some v) (hx : LpFeasible lp x) : v ≤ dot lp.obj x := by
+  have hlen : lp.obj.length = x.length := by
+    rw [dualBound_length h, bndsSat_length x lp.bnds hx.2]
+  exact dualBound_le lp.obj lp.rows lp.bnds y x v hlen h hx.1 hx.2
+
+/-- An accepted optimality certificate (primal point + dual multipliers with equal objectives) proves that the
+point is feasible and that NO feasible point has a smaller objective. -/
+theorem optimal_cert_sound (lp : LP K) (x y : List K) (h : checkOptimal lp x y = true) :
+    LpFeasible lp x ∧ ∀ x', LpFeasible lp x' → dot lp.obj x ≤ dot lp.obj x' := by
+  unfold checkOptimal at h
+  simp only [Bool.and_eq_true, decide_eq_true_eq] at h
+  obtain ⟨⟨_, hfeas⟩, hb⟩ := h
+  refine ⟨lpFeasible_sound hfeas, fun x' hx' => ?_⟩
+  cases hd : dualBound lp.obj lp.rows lp.bnds y with
+  | none => simp [hd] at hb
+  | some v =>
+    simp [hd] at hb
+    exact le_trans hb (weak_duality lp y x' v hd hx')
+
+/-- An accepted infeasibility certificate (Farkas multipliers, or a variable with an empty range) proves that the
+problem has no feasible point. -/
+theorem infeasible_cert_sound (lp : LP K) (c : InfeasCert K) (h : checkInfeasible lp c = true) :
+    ¬ ∃ x, LpFeasible lp x := by
+  rintro ⟨x, hx⟩
+  cases c with
+  | farkas y =>
+    simp only [checkInfeasible] at h
+    cases hd : dualBound (zerosLike lp.obj) lp.rows lp.bnds y with
+    | none => simp [hd] at h
+    | some v =>
+      simp [hd] at h
+      have hlen : (zerosLike lp.obj).length = x.length := by
+        rw [dualBound_length hd, bndsSat_length x lp.bnds hx.2]
+      have := dualBound_le (zerosLike lp.obj) lp.rows lp.bnds y x v hlen hd hx.1 hx.2
+      rw [dot_zerosLike] at this
+      exact absurd h (not_lt.mpr this)
+  | emptyBound j =>
+    simp only [checkInfeasible] at h
+    cases hb : lp.bnds[j]? with
+    | none => simp [hb] at h
+    | some b =>
+      simp only [hb] at h
+      obtain ⟨xj, hxj⟩ := bndsSat_get x lp.bnds j b hx.2 hb
+      unfold emptyBnd at h
+      cases hlo : b.lo with
+      | none => simp [hlo] at h
+      | some l =>
+        cases hhi : b.hi with
+        | none => simp [hlo, hhi] at h
+        | some u =>
+          simp [hlo, hhi] at h
+          have h1 := hxj.1 l hlo
+          have h2 := hxj.2 u hhi
+          exact absurd (le_trans h1 h2) (not_le.mpr h)
+
+/-- An accepted unboundedness certificate (feasible point + improving recession direction) proves that the problem
+is feasible and that its objective has no lower bound on the feasible set. -/
+theorem unbounded_cert_sound (lp : LP K) (x r : List K) (h : checkUnbounded lp x r = true) :
+    LpFeasible lp x ∧ ∀ M : K, ∃ x', LpFeasible lp x' ∧ dot lp.obj x' < M := by
+  unfold checkUnbounded at h
+  simp only [Bool.and_eq_true, decide_eq_true_eq, List.all_eq_true] at h
+  obtain ⟨⟨⟨⟨⟨_, hlen⟩, hfeas⟩, hrows⟩, hbnds⟩, hneg⟩ := h
+  have hx := lpFeasible_sound hfeas
+  refine ⟨hx, fun M => ?_⟩
+  simp only [ef_lt, ef_ofInt, Int.cast_zero, decide_eq_true_eq] at hneg
+  set g := dot lp.obj r with hg
+  have hs : 0 < -g := by linarith
+  let t : K := |dot lp.obj x - M| / (-g) + 1
+  have ht : 0 ≤ t := by positivity
+  refine ⟨move x r t, ⟨fun row hrow => rayRow_move ht hlen (hrows row hrow) (hx.1 row hrow),
+    rayBnds_move x r lp.bnds t ht hbnds hx.2⟩, ?_⟩
+  rw [dot_move _ _ _ _ hlen, ← hg]
+  have h1 : t * (-g) = |dot lp.obj x - M| + (-g) := by
+    have hne : -g ≠ 0 := ne_of_gt hs
+    simp only [t]; rw [add_mul, div_mul_cancel₀ _ hne]; ring
+  have h2 : dot lp.obj x - M ≤ |dot lp.obj x - M| := le_abs_self _
+  nlinarith
+
+/-! ### mixed-integer problems: enumeration of the integer box, every leaf certified -/
+
+/-- an exactly accepted point is a feasible point of the mixed-integer problem (`checkPoint_sound` of C04 at
+tolerance 0). -/
+theorem checkPoint_sound' (p : Prob K) (x : List K) (h : checkPoint p x (ExactField.ofInt 0) = true) :
+    ProbFeasible p x := by
+  unfold checkPoint at h
+  simp only [Bool.and_eq_true, List.all_eq_true, decide_eq_true_eq, ef_ofInt, Int.cast_zero] at h
+  exact ⟨fun r hr => ⟨(h.1 r hr).1, rowHolds_sound (h.1 r hr).2⟩, domsHold_sound x p.doms h.2⟩
+
+/-- MILP optimum: `x` satisfies the problem exactly (rows, bounds, integrality, 0/1) and no point of the problem has a
+smaller objective (in the minimisation form `relax.obj`: `obj` for `min`, `−obj` for `max`, `0` for `satisfy`). -/
+theorem milp_optimal_cert_sound (p : Prob K) (x : List K) (certs : List (LeafCert K))
+    (h : checkMilpOptimal p x certs = true) :
+    ProbFeasible p x ∧ ∀ x', ProbFeasible p x' → dot p.relax.obj x ≤ dot p.relax.obj x' := by
+  unfold checkMilpOptimal at h
+  simp only [Bool.and_eq_true, decide_eq_true_eq] at h
+  obtain ⟨⟨_, hpt⟩, hleaves⟩ := h
+  have hfeas : ProbFeasible p x := by
+    exact checkPoint_sound' p x hpt
+  refine ⟨hfeas, fun x' hx' => ?_⟩
+  obtain ⟨leaf, hleaf, hlp⟩ := probFeasible_leaf hx'
+  obtain ⟨c, hc⟩ := checkLeaves_mem _ _ hleaves leaf hleaf
+  cases c with
+  | infeasible ic =>
+    exact absurd ⟨x', hlp⟩ (infeasible_cert_sound _ ic hc)
+  | bound y =>
+    simp only [checkLeaf, checkLowerBound] at hc
+    cases hd : dualBound (p.relax.fix leaf).obj (p.relax.fix leaf).rows (p.relax.fix leaf).bnds y with
+    | none => simp [hd] at hc
+    | some v =>
+      simp [hd] at hc
+      exact le_trans hc (weak_duality (p.relax.fix leaf) y x' v hd hlp)
+
+/-- MILP infeasible: every leaf of the integer box is certified empty, so the problem has no point. -/
+theorem milp_infeasible_cert_sound (p : Prob K) (certs : List (InfeasCert K))
+    (h : checkMilpInfeasible p certs = true) : ¬ ∃ x, ProbFeasible p x := by
+  rintro ⟨x, hx⟩
+  obtain ⟨leaf, hleaf, hlp⟩ := probFeasible_leaf hx
+  unfold checkMilpInfeasible at h
+  have key : ∀ (ls : List (List (Option Int))) (cs : List (InfeasCert K)),
+      checkMilpInfeasible.go p ls cs = true → ∀ l ∈ ls, ∃ c, checkInfeasible (p.relax.fix l) c = true := by
+    intro ls
+    induction ls with
+    | nil => intro cs _ l hl; simp at hl
+    | cons l ls ih =>
+      intro cs hgo l' hl'
+      cases cs with
+      | nil => simp [checkMilpInfeasible.go] at hgo
+      | cons c cs =>
+        simp only [checkMilpInfeasible.go, Bool.and_eq_true] at hgo
+        rcases List.mem_cons.mp hl' with rfl | hm
+        · exact ⟨c, hgo.1⟩
+        · exact ih cs hgo.2 l' hm
+  obtain ⟨c, hc⟩ := key _ _ h leaf hleaf
+  exact infeasible_cert_sound _ c hc ⟨x, hlp⟩
+
+/-- MILP unbounded: a point of the problem and a ray of the relaxation (which cannot move the bounded integer
+variables) give points of the problem with arbitrarily small objective. -/
+theorem milp_unbounded_cert_sound (p : Prob K) (x r : List K) (h : checkMilpUnbounded p x r = true) :
+    ProbFeasible p x ∧ ∀ M : K, ∃ x', ProbFeasible p x' ∧ dot p.relax.obj x' < M := by
+  unfold checkMilpUnbounded at h
+  simp only [Bool.and_eq_true] at h
+  obtain ⟨hpt, hub⟩ := h
+  have hfeas : ProbFeasible p x := checkPoint_sound' p x hpt
+  refine ⟨hfeas, fun M => ?_⟩
+  -- the LP argument, with the domains (not only the bounds) carried along the ray
+  unfold checkUnbounded at hub
+  simp only [Bool.and_eq_true, decide_eq_true_eq, List.all_eq_true] at hub
+  obtain ⟨⟨⟨⟨⟨_, hlen⟩, hlpf⟩, hrows⟩, hbnds⟩, hneg⟩ := hub
+  have hx := lpFeasible_sound hlpf
+  simp only [ef_lt, ef_ofInt, Int.cast_zero, decide_eq_true_eq] at hneg
+  set g := dot p.relax.obj r with hg
+  have hs : 0 < -g := by linarith
+  let t : K := |dot p.relax.obj x - M| / (-g) + 1
+  have ht : 0 ≤ t := by positivity
+  refine ⟨move x r t, ⟨fun row hrow => ?_, rayBnds_move_doms x r p.doms t ht hbnds hfeas.2⟩, ?_⟩
+  · have hr := rayRow_move ht hlen (hrows row hrow) (hx.1 row hrow)
+    refine ⟨hr.1, ?_⟩
+    have := hr.2
+    unfold RowSat at this
+    unfold RowSatTol
+    cases hrel : row.rel <;> simp [hrel] at this ⊢
+    · exact this
+    · exact this
+    · rw [this]; simp
+  · rw [dot_move _ _ _ _ hlen, ← hg]
+    have h1 : t * (-g) = |dot p.relax.obj x - M| + (-g) := by
+      have hne : -g ≠ 0 := ne_of_gt hs
+      simp only [t]; rw [add_mul, div_mul_cancel₀ _ hne]; ring
+    have h2 : dot p.relax.obj x - M ≤ |dot p.relax.obj x - M| := le_abs_self _
+    nlinarith
+
+/-! ### non-vacuity: the hypotheses are satisfiable (`K = ℚ`) -/
+
+/-- `min x  s.t.  x ≥ 1`, `x` free: optimum at `x = 1` with multiplier `1`. -/
+example : @checkOptimal ℚ (fieldExact ℚ) ⟨[1], [⟨[1], .ge, 1⟩], [⟨none, none⟩]⟩ [1] [1] = true := by
+  simp [checkOptimal, lpFeasible, rowHolds, bndsHold, bndHolds, loHolds, hiHolds, dualBound, reduce, signOk,
+    rowSub, bndSum, bndTerm]
+
+/-- `x ≤ 0` and `x ≥ 1`: Farkas multipliers `(-1, 1)`. -/
+example : @checkInfeasible ℚ (fieldExact ℚ) ⟨[0], [⟨[1], .le, 0⟩, ⟨[1], .ge, 1⟩], [⟨none, none⟩]⟩ (.farkas [-1, 1]) = true := by
+  simp [checkInfeasible, zerosLike, dualBound, reduce, signOk, rowSub, bndSum, bndTerm]
+
+/-- `min x`, `x ≤ 0`: the ray `-1` from the point `0`. -/
+example : @checkUnbounded ℚ (fieldExact ℚ) ⟨[1], [⟨[1], .le, 0⟩], [⟨none, none⟩]⟩ [0] [-1] = true := by
+  simp [checkUnbounded, lpFeasible, rowHolds, bndsHold, bndHolds, loHolds, hiHolds, rayRow, rayBnds]
+
+/-- `max b`, `b ∈ {0,1}`: the point `b = 1`, and for each of the two leaves a dual bound (no rows: empty multipliers). -/
+example : @checkMilpOptimal ℚ (fieldExact ℚ) ⟨.max, [1], 0, [], [.bool]⟩ [1] [.bound [], .bound []] = true := by
+  have hr : intRange 0 1 = [0, 1] := by decide
+  have hfl : Int.floor ((1 : ℚ) + 1 / 2) = 1 := by
+    rw [Int.floor_eq_iff]; constructor <;> norm_num
+  simp [checkMilpOptimal, checkPoint, domsHold, domHolds, absK, leaves, hr, checkLeaves, checkLeaf, checkLowerBound,
+    LP.fix, Prob.relax, negList, fixBnds, fixBnd, Dom.bnd, dualBound, reduce, bndSum, bndTerm]
+
 end Rooc.Props.C05
